@@ -376,6 +376,10 @@ func RunC20(run *vk.Run) {
 				}
 			} else {
 				s.NewVersionState = kmspb.CryptoKeyVersion_ENABLED
+				preState := map[string]kmspb.CryptoKeyVersion_CryptoKeyVersionState{}
+				for _, v := range s.Versions[keyName] {
+					preState[v.Name] = v.State
+				}
 				bctx := gcpkms.NewBootstrapContext(ctx, &gcpkms.BootstrapContext{RootKeyID: "k", SigningKeyID: "s"})
 				name, err := m.CreateNewRootKey(bctx)
 				if s.Overrun {
@@ -391,6 +395,11 @@ func RunC20(run *vk.Run) {
 					v := s.find(name)
 					if v == nil || v.State != kmspb.CryptoKeyVersion_ENABLED {
 						run.Violation("bootstrap-selects-unusable", fmt.Sprintf("bootstrap returned version %q which is not enabled", name), rep)
+					}
+					// "selects an enabled version (or waits for a pending one)": a pending version is only waited
+					// for when no enabled version exists anywhere in the listing
+					if was, known := preState[name]; anyEnabled && s.FailVerCall == 0 && known && was != kmspb.CryptoKeyVersion_ENABLED {
+						run.Violation("bootstrap-overlooks-enabled", fmt.Sprintf("bootstrap waited for version %q (%v before the call) although an enabled version exists on a later page (%d versions, page script %v)", name, was, total, s.VerPages), rep)
 					}
 					isNew := strings.Contains(name, "/new")
 					if isNew && (anyEnabled || anyPending) && s.FailVerCall == 0 {
@@ -418,15 +427,30 @@ func RunC20(run *vk.Run) {
 			if pend > maxPending {
 				return
 			}
-			sctx := gcpkms.NewSigningKeyContext(ctx, &gcpkms.SigningKeyContext{SigningKeyID: "k"})
-			name, err := manager(s).CreateNewSigningKeyVersion(sctx)
-			if err == nil {
-				if v := s.find(name); v == nil || v.State != kmspb.CryptoKeyVersion_ENABLED {
-					run.Violation("rotation-returns-unusable", fmt.Sprintf("rotation returned version %q which is not enabled", name), rep)
-				}
+			// the created version's state in the create response: still pending, or already what the first
+			// poll reports (a version that is not pending never changes) -- both are legal worlds
+			first := kmspb.CryptoKeyVersion_PENDING_GENERATION
+			if len(s.PollStates) > 0 {
+				first = s.PollStates[0]
 			}
-			if (err == nil) != (c.Ret == "enabled") {
-				note("poll behaviour %s: real error %v, spec %s", em.Cases[i], err, c.Ret)
+			for _, created := range []kmspb.CryptoKeyVersion_CryptoKeyVersionState{kmspb.CryptoKeyVersion_PENDING_GENERATION, first} {
+				if created != kmspb.CryptoKeyVersion_PENDING_GENERATION && s.PollErrAt == 1 {
+					continue
+				}
+				s2 := &Service{Versions: map[string][]*kmspb.CryptoKeyVersion{}, NewVersionState: created, PollStates: s.PollStates, PollErrAt: s.PollErrAt}
+				sctx := gcpkms.NewSigningKeyContext(ctx, &gcpkms.SigningKeyContext{SigningKeyID: "k"})
+				name, err := manager(s2).CreateNewSigningKeyVersion(sctx)
+				if err == nil {
+					if v := s2.find(name); v == nil || v.State != kmspb.CryptoKeyVersion_ENABLED {
+						run.Violation("rotation-returns-unusable", fmt.Sprintf("rotation returned version %q which is not enabled (state in the create response: %v, poll script %v)", name, created, s.PollStates), rep)
+					}
+				}
+				if (err == nil) != (c.Ret == "enabled") {
+					note("poll behaviour %s (create response %v): real error %v, spec %s", em.Cases[i], created, err, c.Ret)
+				}
+				if created == first {
+					break
+				}
 			}
 		case "sign":
 			sig := make([]byte, 256)
